@@ -223,7 +223,7 @@ class TotalSeconds(Model):
         tot = self.td.total_us()
         # exact below 2**53 microseconds-worth of seconds; int() truncates toward zero
         interp.ctx.check('float.total_seconds_exact', S.SBool(z3.And(tot > -2 ** 52 * 1000, tot < 2 ** 52 * 1000)))
-        q = z3.If(tot >= 0, tot / 1000000, -((-tot) / 1000000))
+        q = z3.If(tot >= 0, S.pydiv(tot, z3.IntVal(1000000)), -S.pydiv(-tot, z3.IntVal(1000000)))
         return _w(q)
 
 
